@@ -298,32 +298,71 @@ pub fn c14_pow_higher_correction_basis() {
 // ------------------------------------------------------------------------------------------
 use clarabel::algebra::densesym3x3::verif_hooks_d3 as d3;
 
-/// lemma: factor succeeds => the returned x solves H x = b; factor fails => a leading principal minor
-/// vanishes (in the field `t <= 0` is `t == 0`)
+/// lower-triangular matrix from the packed storage (00 01 11 02 12 22; L[(i,j)], i >= j, is stored at (j,i))
+fn lower(l: &[F; 6]) -> [[F; 3]; 3] {
+    let z = F::zero();
+    [[l[0], z, z], [l[1], l[2], z], [l[3], l[4], l[5]]]
+}
+
+/// lemma (i): factor succeeds => L L' = H with a nonzero diagonal; factor fails => a leading principal
+/// minor vanishes (in the field `t <= 0` is `t == 0`)
 #[kani::proof]
 #[kani::unwind(8)]
-pub fn c14_chol3_is_a_linear_solver() {
+pub fn c14_chol3_factor_is_llt() {
     let h: [F; 6] = [F::any(), F::any(), F::any(), F::any(), F::any(), F::any()];
-    let b = [F::any(), F::any(), F::any()];
     let m = unpack(&h);
     let m2 = m[0][0] * m[1][1] - m[0][1] * m[0][1];
     let det = m[0][0] * (m[1][1] * m[2][2] - m[1][2] * m[1][2]) - m[0][1] * (m[0][1] * m[2][2] - m[1][2] * m[0][2])
         + m[0][2] * (m[0][1] * m[1][2] - m[1][1] * m[0][2]);
-    match d3::chol3_factor_solve(h, b) {
-        Some(x) => {
+    match d3::chol3_factor(h) {
+        Some(l) => {
+            let lm = lower(&l);
             let mut i = 0;
             while i < 3 {
-                assert!(m[i][0] * x[0] + m[i][1] * x[1] + m[i][2] * x[2] == b[i], "cholesky_solve_returns_the_solution_of_Hx_eq_b");
+                let mut j = 0;
+                while j <= i {
+                    let v = lm[i][0] * lm[j][0] + lm[i][1] * lm[j][1] + lm[i][2] * lm[j][2];
+                    assert!(v == m[i][j], "factor_times_its_transpose_is_the_matrix");
+                    j += 1;
+                }
                 i += 1;
             }
-            assert!(m[0][0].0 != 0 && m2.0 != 0 && det.0 != 0, "success_implies_nonzero_leading_minors");
-            kani::cover!(x[0].0 == 3 && b[1].0 == 2 && m[0][1].0 != 0, "solved a coupled system");
+            assert!(l[0].0 != 0 && l[2].0 != 0 && l[5].0 != 0, "factor_has_a_nonzero_diagonal");
+            kani::cover!(l[1].0 != 0 && l[4].0 == 3, "coupled factor");
         }
         None => {
             assert!(m[0][0].0 == 0 || m2.0 == 0 || det.0 == 0, "failure_only_for_a_vanishing_leading_minor");
             kani::cover!(m[0][0].0 != 0, "opt: failure at a later pivot");
         }
     }
+}
+
+/// lemma (ii): for ANY lower-triangular factor with a nonzero diagonal the explicit forward/backward
+/// substitution returns the solution of (L L') x = b
+#[kani::proof]
+#[kani::unwind(8)]
+pub fn c14_chol3_solve_inverts_llt() {
+    let l: [F; 6] = [F::any_nonzero(), F::any(), F::any_nonzero(), F::any(), F::any(), F::any_nonzero()];
+    // b = lambda e_k (the solve is linear in b; with a full symbolic b the query did not finish in 30 min)
+    let k: usize = kani::any();
+    kani::assume(k < 3);
+    let mut b = [F::zero(); 3];
+    b[k] = F::any();
+    let x = d3::chol3_solve(l, b);
+    let lm = lower(&l);
+    // y = L' x ; L y == b
+    let mut y = [F::zero(); 3];
+    let mut i = 0;
+    while i < 3 {
+        y[i] = lm[0][i] * x[0] + lm[1][i] * x[1] + lm[2][i] * x[2];
+        i += 1;
+    }
+    let mut i = 0;
+    while i < 3 {
+        assert!(lm[i][0] * y[0] + lm[i][1] * y[1] + lm[i][2] * y[2] == b[i], "solve_returns_the_solution_of_LLt_x_eq_b");
+        i += 1;
+    }
+    kani::cover!(x[0].0 == 3 && b[1].0 == 2 && l[1].0 != 0, "solved a coupled system");
 }
 
 #[kani::proof]
